@@ -78,7 +78,7 @@ let output_line (o : output) : string =
   match o.o_res with
   | RCrash -> "crash"
   | r ->
-      let evs = sorted (List.map event_tok o.o_events) in
+      let evs = List.map event_tok (List.stable_sort (fun (i, _) (j, _) -> compare (int_of_n i) (int_of_n j)) o.o_events) in
       (* per ls instance: count and last list *)
       let tbl = Hashtbl.create 8 in
       List.iter (fun (i, l) ->
